@@ -31,6 +31,57 @@ def _is_const(e, value) -> bool:
     return isinstance(e, ast.Constant) and not isinstance(e.value, bool) and isinstance(e.value, (int, float)) and e.value == value
 
 
+def _test_meaning(g: CFG, t):
+    """the condition an if / while test stands for when it reads named booleans: a local B whose only definition reaching the test is
+    `B = <comparison / and / or / not of locals and constants>` stands for that expression, provided no local the expression reads (nor B) can be
+    re-bound on the way from that assignment to the test (so that the expression has the same value at both places)"""
+    import copy
+
+    def meaning(e, at, depth):
+        if isinstance(e, ast.UnaryOp) and isinstance(e.op, ast.Not):
+            return ast.copy_location(ast.UnaryOp(op=ast.Not(), operand=meaning(e.operand, at, depth)), e)
+        if isinstance(e, ast.BoolOp):
+            return ast.copy_location(ast.BoolOp(op=e.op, values=[meaning(v, at, depth) for v in e.values]), e)
+        if not isinstance(e, ast.Name) or depth >= 3:
+            return e
+        rd = g.reaching_defs(at, e.id)
+        if len(rd) != 1 or rd[0] is CFG.ENTRY or not isinstance(rd[0], (ast.Assign, ast.AnnAssign)) or rd[0].value is None:
+            return e
+        d = rd[0]
+        tg = d.targets[0] if isinstance(d, ast.Assign) and len(d.targets) == 1 else d.target if isinstance(d, ast.AnnAssign) else None
+        if not (isinstance(tg, ast.Name) and tg.id == e.id) or d is at:
+            return e
+        v = d.value
+        if not all(isinstance(y, (ast.Name, ast.Constant, ast.Compare, ast.BoolOp, ast.UnaryOp, ast.Not, ast.boolop, ast.cmpop, ast.Load)) for y in ast.walk(v)) \
+                or not any(isinstance(y, (ast.Compare, ast.BoolOp, ast.UnaryOp)) for y in ast.walk(v)):
+            return e            # (only named *tests*: anything else is left to the caller's own resolution)
+        reads = {y.id for y in ast.walk(v) if isinstance(y, ast.Name)} | {e.id}
+        # statements that can execute after the assignment and before the use (without passing the assignment again)
+        for q in g.reachable(d, avoid=lambda q_: q_ is d or q_ is at):
+            if q in (CFG.EXIT, CFG.RAISE, CFG.ENTRY) or q is at or q is d:
+                continue
+            if g.defs_of(q) & reads and g.reaches({q}, at, avoid=lambda r_: r_ is d):
+                return e
+        # the expression is evaluated at the assignment: named booleans it reads are resolved there
+        return meaning(copy.deepcopy(v), d, depth + 1)
+
+    return meaning(t, t, 0)
+
+
+def _only_when_named(g: CFG, node, pos: str, neg: str | None, want: bool) -> bool:
+    """_only_when with the tests read through named booleans (see _test_meaning)"""
+    for t in g.nodes:
+        if g.kind.get(t) != "test":
+            continue
+        p = _pol(_test_meaning(g, t), pos, neg)
+        if p is None:
+            continue
+        taken = (p == want)
+        if g.must_pass(CFG.ENTRY, node, lambda q: q is t) and not g.reaches(g.branch(t, not taken), node, avoid=lambda q: q is t):
+            return True
+    return False
+
+
 def r05_1(chk: Check):
     S = chk.src
     ex, fj, vpvm, vpovm = junction_terms(S)
@@ -75,7 +126,8 @@ def r05_1(chk: Check):
     cand = [d for d in defs if isinstance(d, ast.Assign)]
     if not cand or VPr != VP:
         raise AnchorMissing("matchDeflagOrHyb: v+ from entropy conservation after the solve not found")
-    unguarded = [d for d in defs if not _only_when(g, d, f"{VP} is None", f"{VP} is not None", True)]
+    # (the test may be a named boolean, `fromEntropy = vp is None ... if fromEntropy:`, as long as vp is not re-bound in between)
+    unguarded = [d for d in defs if not _only_when_named(g, d, f"{VP} is None", f"{VP} is not None", True)]
     keep = {TP, TM_} | ({VMe.id} if isinstance(VMe, ast.Name) else set())
     exo = Extractor(S, positive={TM_, TP})
     env = {"__module__": "hydrodynamics", "__class__": "Hydrodynamics"}
